@@ -30,6 +30,12 @@ CHECKS = {
   text="For every expression string of <= N scalar values (N=6 quick / 8 thorough) and 3/4-character holes inside nested parentheses, function calls and predicates, z3 decides (a) no accepted expression selects an expr-model variant whose evaluator arm is unimplemented!/todo!/panic!, (b) variants whose arm returns Err do not panic on the real code, (c) no production is entered more than 8 times at one position (no exponential re-parsing of parenthesised / nested expressions).",
   note="Partial: evaluation over a live document (parent of root/attribute, id(), sibling navigation) and the scalar functions' panic freedom are outside this check. Bounded lengths are small because every unsat verdict on the 12-level XPath grammar is expensive.",
   design="3/C06"),
+ "C16": dict(
+  technique="source-level symbolic execution (S-kernel: path-by-path interpreter over the syn dump with modelled std) of the real dom/info character-data functions + SMT (z3 BV64) per path; both overflow configurations; counterexamples replayed on debug and release builds",
+  category="model_checking",
+  text="length, substring_data, insert_data, delete_data, replace_data, append_data, set_data and split_text (bounds check + info split_at) of Text, Comment and CDATASection are executed symbolically down to insert_char_at / delete_char_range and the nom productions behind the check closures, for content of exactly n <= 3 (quick) / 4 (thorough) scalar values over all of Unicode, offset and count ANY 64-bit value, argument <= 1/2 characters, with overflow panicking (debug) and wrapping (release). For every path z3 decides the DOM Level 1 post-condition (IndexSizeErr iff offset > length, count clipped, exact resulting data, character granularity) and that no path panics.",
+  note="Outside: the sibling insertion of split_text and XmlExpandedText (item graph), contents longer than the bound, refusal of arguments (C15). Trusted: the std models in engine/sx/kstd.py and UTF-8 encoding of String; every counterexample is replayed through the public DOM API (factories + operation) before it is reported.",
+  design="4/C16", engine="S-kernel"),
  "C18": dict(
   technique="SMT (z3 QF_BV) over char predicates and name productions read from source, every scalar value / every string <= N; Kani/CBMC on the compiled classifiers over the whole char domain; counterexamples replayed",
   category="model_checking",
@@ -49,6 +55,7 @@ m = {
            "baseline_off_cmd": "cd /repo && cargo test --workspace --no-fail-fast --offline", "source_commits": [], "add_only": True},
  "engines": [
   {"name": "S-grammar", "path": "engine/sx/nomsem.py", "serves_properties": ["C01", "C02", "C03", "C06", "C18"], "kind_free_text": "symbolic executor for the nom grammars read from /repo via engine/srcdump (syn); z3 QF_BV"},
+  {"name": "S-kernel", "path": "engine/sx/kernel.py", "serves_properties": ["C16"], "kind_free_text": "path-enumerating symbolic interpreter for small Rust functions read from the syn dump (engine/sx/kstd.py = std models); z3"},
   {"name": "Kani", "path": "kani/", "serves_properties": ["C18"], "kind_free_text": "Kani 0.68 / CBMC 6.11 harness crate with path dependencies on /repo crates"},
   {"name": "replay", "path": "replay/", "serves_properties": ["C01", "C02"], "kind_free_text": "Rust driver with path dependencies on /repo crates: replays solver models and validates the translator"},
  ],
